@@ -967,3 +967,157 @@ M('C17-n-hoist-index', 'C17', F_SFX,
   "        lsb = self._data[base]\n"
   "        msb = self._data[base + 1]\n"
   "        pitch = lsb & 0x3f\n", kind='neutral')
+
+# ---------------------------------------------------------------- C03 ----
+M('C03-gfx-no-nibble-swap', 'C03', F_GFX,
+  "                newdata.append((b & 0x0f) << 4 | (b & 0xf0) >> 4)\n",
+  "                newdata.append(b)\n", expect='R-C03-layout')
+M('C03-sfx-reader-swapped-slices', 'C03', F_SFX,
+  "                waveform = int(line[i+2:i+3], 16)\n"
+  "                volume = int(line[i+3:i+4], 16)\n",
+  "                waveform = int(line[i+3:i+4], 16)\n"
+  "                volume = int(line[i+2:i+3], 16)\n", expect='R-C03-layout',
+  accept_error=True)
+M('C03-sfx-filter-168', 'C03', F_SFX,
+  "            if len(line) != 169:\n", "            if len(line) != 168:\n",
+  expect='R-C03-linelen')
+M('C03-music-flag-shift', 'C03', F_MUSIC,
+  "            p8flags = (fstop << 2) | (frepeat << 1) | fnext\n",
+  "            p8flags = (fstop << 1) | (frepeat << 2) | fnext\n",
+  expect='R-C03-layout')
+M('C03-gff-written-with-map', 'C03', F_P8,
+  "        for line in game.gff.to_lines():\n",
+  "        for line in game.map.to_lines():\n", expect='R-C03-sections')
+M('C03-label-unconditional', 'C03', F_P8,
+  "        if game.label:\n            outstr.write(b'__label__\\n')\n"
+  "            for line in game.label.to_lines():\n                outstr.write(line)\n",
+  "        outstr.write(b'__label__\\n')\n"
+  "        for line in (game.label or game.gfx).to_lines():\n            outstr.write(line)\n",
+  expect='R-C03-text')
+M('C03-version-dropped', 'C03', F_P8,
+  "        new_game.version = data.version\n", "", expect='R-C03-sections')
+M('C03-newline-always', 'C03', F_P8,
+  "        if not ended_in_newline:\n            outstr.write(b'\\n')\n\n        outstr.write(b'__gfx__\\n')",
+  "        outstr.write(b'\\n')\n\n        outstr.write(b'__gfx__\\n')",
+  expect='R-C03-text')
+M('C03-music-channel-mask', 'C03', F_MUSIC,
+  "            chan2 = self._data[start_i+1] & 127\n",
+  "            chan2 = self._data[start_i+1] & 63\n", expect='R-C03-layout')
+
+# ---------------------------------------------------------------- C04 ----
+M('C04-swap-planes', 'C04', F_PNG,
+  "                new_row[col_i * planes + 2] = (\n"
+  "                    (row[col_i * planes + 2] & ~3) |\n"
+  "                    (picobyte & 3))\n",
+  "                new_row[col_i * planes + 2] = (\n"
+  "                    (row[col_i * planes + 2] & ~3) |\n"
+  "                    ((picobyte >> 4) & 3))\n", expect='R-C04-stego')
+M('C04-mask-three-bits', 'C04', F_PNG,
+  "                    (row[col_i * planes + 1] & ~3) |\n",
+  "                    (row[col_i * planes + 1] & ~7) |\n", expect='R-C04-stego')
+M('C04-slice-bound', 'C04', F_PNG,
+  "    data.song = picodata[0x3100:0x3200]\n",
+  "    data.song = picodata[0x3100:0x3300]\n", expect='R-C04-memmap')
+M('C04-join-order', 'C04', F_PNG,
+  "                             game.map.to_bytes(),\n"
+  "                             game.gff.to_bytes(),\n",
+  "                             game.gff.to_bytes(),\n"
+  "                             game.map.to_bytes(),\n", expect='R-C04-memmap')
+M('C04-revert-fix05-guard', 'C04', F_PNG,
+  "    if len(code_bytes) > len(byte_array):\n"
+  "        raise CodeTooLargeError(len(code_bytes), len(byte_array))\n", "",
+  expect='R-C04-refuse')
+M('C04-revert-fix04-kinds', 'C04', F_PNG,
+  "        code_bytes = bytes(code)\n", "        code_bytes = bytes(code, 'ascii')\n",
+  expect='R-C04-kinds')
+M('C04-header-zeros-dropped', 'C04', F_PNG,
+  "            [b':c:\\0', code_length_bytes, b'\\0\\0',\n",
+  "            [b':c:\\0', code_length_bytes, b'',\n", expect='R-C04-header')
+M('C04-label-open-write', 'C04', F_PNG,
+  "            with open(label_fname, 'rb') as label_fh:\n",
+  "            with open(label_fname, 'wb+') as label_fh:\n", expect='R-C04-label')
+M('C04-reader-plane-order', 'C04', F_PNG,
+  "                (row[col_i * attrs['planes'] + 0] & 3) << (2 * 2))\n",
+  "                (row[col_i * attrs['planes'] + 0] & 3) << (3 * 2))\n",
+  expect='R-C04-stego', accept_error=True)
+
+# ---------------------------------------------------------------- C05 ----
+M('C05-min-len-2', 'C05', F_COMPRESS,
+  "        if block_len >= 3:\n", "        if block_len >= 2:\n",
+  expect='R-C05-wellformed')
+M('C05-max-len-18', 'C05', F_COMPRESS,
+  "    max_block_len = 17\n", "    max_block_len = 18\n", expect='R-C05-wellformed')
+M('C05-decoder-bias', 'C05', F_COMPRESS,
+  "                (codedata[in_i - 1] - 0x3c) * 16 +\n",
+  "                (codedata[in_i - 1] - 0x3d) * 16 +\n", expect='R-C05-format')
+M('C05-encoder-radix', 'C05', F_COMPRESS,
+  "            out.append((block_offset % 16) + (block_len - 2) * 16)\n",
+  "            out.append((block_offset % 16) + (block_len - 2) * 32)\n",
+  expect='R-C05-format')
+M('C05-revert-fix06-copy', 'C05', F_COMPRESS,
+  "            for _ in range(length):\n"
+  "                if out_i >= code_length:\n"
+  "                    break\n"
+  "                out[out_i] = out[out_i - offset]\n"
+  "                out_i += 1\n",
+  "            out[out_i:out_i + length] = \\\n"
+  "                out[out_i - offset:out_i - offset + length]\n"
+  "            out_i += length\n", expect='R-C05-copy')
+M('C05-table-char', 'C05', F_COMPRESS,
+  "    b'#\\n 0123456789abcdefghijklmnopqrstuvwxyz!#%(){}[]<>+=/*:;.,~_')",
+  "    b'#\\n 0123456789abcdefghijklmnopqrstuvwxyz!#%(){}[]<>+=/*:;.,~-')",
+  expect='R-C05-format')
+M('C05-literal-index-from-0', 'C05', F_COMPRESS,
+  "    for i in range(1, len(COMPRESSED_LUA_CHAR_TABLE)):\n",
+  "    for i in range(0, len(COMPRESSED_LUA_CHAR_TABLE)):\n", expect='R-C05-format')
+M('C05-overlap-allowed', 'C05', F_COMPRESS,
+  "        while (j - i) < max_len and j < pos and dat[j] == dat[pos + j - i]:\n",
+  "        while (j - i) < max_len and dat[j] == dat[pos + j - i]:\n",
+  expect='R-C05-wellformed')
+M('C05-window-too-wide', 'C05', F_COMPRESS,
+  "    max_hist_len = (255 - len(COMPRESSED_LUA_CHAR_TABLE)) * 16\n",
+  "    max_hist_len = (256 - len(COMPRESSED_LUA_CHAR_TABLE)) * 16\n",
+  expect='R-C05-wellformed')
+M('C05-n-hex-vs-len', 'C05', F_COMPRESS,
+  "                (block_offset // 16) + len(COMPRESSED_LUA_CHAR_TABLE))\n",
+  "                (block_offset // 16) + 0x3c)\n", kind='neutral')
+
+# ---------------------------------------------------------------- C16 ----
+MM('C16-custom-bit-both-sides', 'C16', [
+   (F_SFX, "        waveform = ((msb & 0x80) >> 4) | (\n",
+    "        waveform = ((msb & 0x40) >> 3) | (\n"),
+   (F_SFX, "            msb = (msb & 0x7e) | ((waveform & 4) >> 2) | ((waveform & 8) << 4)\n",
+    "            msb = (msb & 0xbe) | ((waveform & 4) >> 2) | ((waveform & 8) << 3)\n")],
+   expect='R-C16-sfx', note='getter and setter agree with each other, not with the format')
+MM('C16-music-flags-both-sides', 'C16', [
+   (F_MUSIC, "            p8flags = (fstop << 2) | (frepeat << 1) | fnext\n",
+    "            p8flags = (fnext << 2) | (frepeat << 1) | fstop\n"),
+   (F_MUSIC, "            fstop = (flags & 4) >> 2\n            frepeat = (flags & 2) >> 1\n            fnext = flags & 1\n",
+    "            fnext = (flags & 4) >> 2\n            frepeat = (flags & 2) >> 1\n            fstop = flags & 1\n")],
+   expect='R-C16-music')
+MM('C16-png-planes-both-sides', 'C16', [
+   (F_PNG, "                (row[col_i * attrs['planes'] + 2] & 3) << (0 * 2))\n",
+    "                (row[col_i * attrs['planes'] + 1] & 3) << (0 * 2))\n"),
+   (F_PNG, "                (row[col_i * attrs['planes'] + 1] & 3) << (1 * 2))\n",
+    "                (row[col_i * attrs['planes'] + 2] & 3) << (1 * 2))\n"),
+   (F_PNG, "                new_row[col_i * planes + 2] = (\n                    (row[col_i * planes + 2] & ~3) |\n                    (picobyte & 3))\n",
+    "                new_row[col_i * planes + 2] = (\n                    (row[col_i * planes + 2] & ~3) |\n                    ((picobyte >> 2) & 3))\n"),
+   (F_PNG, "                new_row[col_i * planes + 1] = (\n                    (row[col_i * planes + 1] & ~3) |\n                    ((picobyte >> 2) & 3))\n",
+    "                new_row[col_i * planes + 1] = (\n                    (row[col_i * planes + 1] & ~3) |\n                    (picobyte & 3))\n")],
+   expect='R-C16-png')
+M('C16-map-row-64', 'C16', F_MAP,
+  "class Map(util.BaseSection):\n    \"\"\"The map region of a PICO-8 cart.\"\"\"\n    HEX_LINE_LENGTH_BYTES = 128\n",
+  "class Map(util.BaseSection):\n    \"\"\"The map region of a PICO-8 cart.\"\"\"\n    HEX_LINE_LENGTH_BYTES = 64\n",
+  expect='R-C16-hexrows')
+M('C16-hex-uppercase', 'C16', F_UTIL,
+  "    return ''.join(format(b, '02x') for b in bstr)\n",
+  "    return ''.join(format(b, '2x') for b in bstr)\n", expect='R-C16-hexrows')
+MM('C16-gfx-both-plain', 'C16', [
+   (F_GFX, "                newdata.append((b & 0x0f) << 4 | (b & 0xf0) >> 4)\n",
+    "                newdata.append(b)\n"),
+   (F_GFX, "            for i in range(0, 128, 2):\n                (larray[i], larray[i+1]) = (larray[i+1], larray[i])\n", "")],
+   expect='R-C16-gfx', note='round trip still fine; pixels not in screen order')
+M('C16-stream-bias-both', 'C16', F_COMPRESS,
+  "COMPRESSED_LUA_CHAR_TABLE = list(\n    b'#\\n 0123",
+  "COMPRESSED_LUA_CHAR_TABLE = list(\n    b'##\\n 0123", expect='R-C16-stream',
+  note='shifts table and bias consistently in encoder and decoder')
